@@ -57,7 +57,7 @@ func classifyStd(fn *ssa.Function) stdInfo {
 	si := stdInfo{CallsArg: -1, MutArg: -1}
 	switch name {
 	case "sort.Slice", "sort.SliceStable":
-		return stdInfo{Class: stdMutatesArg, MutArg: 0, CallsArg: 1, NoPanic: false}
+		return stdInfo{Class: stdMutatesArg, MutArg: 0, CallsArg: 1, NoPanic: true} // given a slice argument (checked at the call site)
 	case "sort.Strings", "sort.Ints", "sort.Float64s", "sort.Sort", "sort.Stable":
 		return stdInfo{Class: stdMutatesArg, MutArg: 0, CallsArg: -1}
 	case "sort.SearchStrings", "sort.SearchInts", "sort.SliceIsSorted", "sort.StringsAreSorted", "sort.Search":
